@@ -3,6 +3,9 @@
 import json, os, subprocess
 V = os.path.dirname(os.path.dirname(os.path.abspath(__file__)))
 TEXT = {
+ 'C20': ('conservation/target monitor: molar flows of every inlet and outlet recorded around each real separations helper call; per-chemical balance, non-negativity and the helper target (K ratios, moisture fraction, phase routing, split identity, balance residual) evaluated',
+         'Exploration: seeded cases for mix_and_split, moisture adjustment, partition / phase_fraction (forced and unlisted chemicals, strict on/off, stale outlets), phase_split, chemical_splits, material_balance and the vle / lle wrappers.',
+         'Equilibrium quality of the wrappers is C04/C15; feeds with no material among the listed chemicals are not judged.'),
  'C14': ('fresh-twin monitor: every property read on a real stream / proxy / linked stream / phase view during a mutation history is compared with the same property of a brand-new stream built from the reader\'s current state; a counter on the mixture-model methods separates memo hits from recomputations',
          'Exploration: seeded histories of 8-40 steps (21 properties; T/P/phase/flow edits through every view, total-only and composition-only changes, set-back-to-previous-value patterns across readers, mixing, link/unlink, package reset, phase-set changes).',
          'The twin is built through public constructors; reads that also raise on the twin are not judged.'),
